@@ -383,14 +383,14 @@ func init() {
 		ID: "C02",
 		Rule: "geometries from the grammar (nine kinds, empty values and members, nested collections incl. empty nested collections; finite coordinates over the full float64 range), features with id in {absent, string, number}, property maps over null/bool/number/string (escapes, unicode, control characters)/arrays/objects to depth 4, bbox absent/4/6 numbers, feature collections of 0..20 features with 0..5 foreign members (names avoid type/bbox/features, include control characters), all through JSON and BSON, plus the helper types geojson.Point..MultiPolygon. " +
 			"non-trivial = at least one vertex or one property; distinct = hash of the marshalled JSON",
-		MinNontrivial: h.Fixed(3000, 200000),
+		MinNontrivial: h.Fixed(3000, 2000000),
 		Assumptions: []string{
 			"values compared after normalising Go types (maps, slices, numbers as float64; nil map = empty map): the property says 'the same properties', and BSON legitimately returns primitive.D/A and int32/int64",
 			"nil-slice geometries are outside the quantifier (they marshal to \"coordinates\":null)",
 		},
 		Subs: []h.Sub{
 			{
-				Name: "geometries", Count: h.Fixed(3000, 200000),
+				Name: "geometries", Count: h.Fixed(3000, 2000000),
 				Run: func(c *h.Ctx, idx uint64, r *h.Rand) {
 					g := genGeom(r)
 					c.Note([]byte(sv(g)))
@@ -407,7 +407,7 @@ func init() {
 				},
 			},
 			{
-				Name: "features", Count: h.Fixed(2000, 120000),
+				Name: "features", Count: h.Fixed(2000, 1200000),
 				Run: func(c *h.Ctx, idx uint64, r *h.Rand) {
 					f := genFeature(r)
 					d := func() map[string]interface{} {
@@ -481,7 +481,7 @@ func init() {
 				},
 			},
 			{
-				Name: "feature-collections", Count: h.Fixed(600, 40000),
+				Name: "feature-collections", Count: h.Fixed(600, 300000),
 				Run: func(c *h.Ctx, idx uint64, r *h.Rand) {
 					fc := geojson.NewFeatureCollection()
 					if r.P(1, 10) {
